@@ -268,6 +268,8 @@ def run(report, index, tier):
                  'the inserted semicolon does not carry column 0 (the '
                  'marker for "no source position")',
                  where='lexers/es5.py:Lexer._create_semi_token')
+    from .c06 import line_index_rule
+    line_index_rule(report, index, 'R08.4')
     report.not_decided += [
         'which source file a fragment names (sourcepath stack of '
         'walker.walk: runtime stack, walker.py is digest-guarded only)',
